@@ -401,6 +401,58 @@ package transaction
 //@   loop 5 invariant flagged: forall i int :: 0 <= i && i <= rangeindex ==> unionstore.lockedIn(memBuf.fver, keys[i]) || txn.aggressiveLockingContext != nil || lockCtx.LockOnlyIfExists
 //@   at call(asyncPessimisticRollback) assert whole: arg_keys == allKeys && arg_specifiedForUpdateTS >= lockCtx.ForUpdateTS && arg_specifiedForUpdateTS >= lockCtx.MaxLockedWithConflictTS && err != nil
 
+// One batch of a pessimistic lock request: it goes to the batch's region and names the transaction's start timestamp, its
+// for-update timestamp (and a minimum commit timestamp right above it) and the first-lock flag as they were when the batch
+// started - on the first attempt and on every retry of the loop (only the wait time-out and the lock time-to-live are
+// refreshed per attempt).
+//@ func (actionPessimisticLock) handleSingleBatch
+//@   prop C06 C04
+//@   may-panic
+//@   requires c.forUpdateTS < 18446744073709551615
+//@   opaque-callee handleSingleBatch$1 primary LockWaitTime GetRequestSource checkMaxExecutionTimeExceeded calculateEffectiveWaitTime NewRegionRequestSender handlePessimisticLockResponseNormalMode handlePessimisticLockResponseForceLockMode ResolveLocksDone GetLockResolver Key
+//@   at call(SendReq) assert request: arg_req == req && arg_regionID == batch.region && req.Type == tikvrpc.CmdPessimisticLock &&
+//@       req.Req.(*kvrpcpb.PessimisticLockRequest).StartVersion == old(c.startTS) && req.Req.(*kvrpcpb.PessimisticLockRequest).ForUpdateTs == old(c.forUpdateTS) &&
+//@       req.Req.(*kvrpcpb.PessimisticLockRequest).MinCommitTs == old(c.forUpdateTS) + 1 && req.Req.(*kvrpcpb.PessimisticLockRequest).IsFirstLock == old(c.isFirstLock) &&
+//@       req.Req.(*kvrpcpb.PessimisticLockRequest).WakeUpMode == action.wakeUpMode
+//@   loop 1 invariant req: req != nil && req.Type == tikvrpc.CmdPessimisticLock && req.Req.(*kvrpcpb.PessimisticLockRequest) != nil &&
+//@       req.Req.(*kvrpcpb.PessimisticLockRequest).StartVersion == old(c.startTS) && req.Req.(*kvrpcpb.PessimisticLockRequest).ForUpdateTs == old(c.forUpdateTS) &&
+//@       req.Req.(*kvrpcpb.PessimisticLockRequest).MinCommitTs == old(c.forUpdateTS) + 1 && req.Req.(*kvrpcpb.PessimisticLockRequest).IsFirstLock == old(c.isFirstLock) &&
+//@       req.Req.(*kvrpcpb.PessimisticLockRequest).WakeUpMode == action.wakeUpMode
+
+// The answer to a pessimistic lock request (normal wake-up mode): the batch is reported LOCKED (finished without error)
+// only for a response that carries a body, no region error (a region error is handed to handleRegionError, which alone
+// may finish the batch through the regrouped request) and no key error at all; every key error either ends the batch with
+// an error or makes the caller send the request again. A region error is retried (not finished) only without error.
+//@ func (actionPessimisticLock) handleRegionError
+//@   prop C06
+//@   may-panic
+//@   opaque-callee MayBackoffForRegionError relocate pessimisticLockMutations GetRegionCache
+//@   ensures again: !finished ==> err == nil
+//@ func (actionPessimisticLock) handleKeyErrorForResolve
+//@   prop C06
+//@   may-panic
+//@   opaque-callee extractKeyExistsErr NewLock ExtractLockFromKeyErr
+//@   loop 1 invariant l1: -1 <= rangeindex
+//@   loop 2 invariant l2: -1 <= rangeindex
+//@   ensures ends: err != nil ==> finished
+//@ func (actionPessimisticLock) handlePessimisticLockResponseNormalMode
+//@   prop C06
+//@   may-panic
+//@   opaque-callee handleRegionError MergeReqDetails GetStoreAddr GetID run checkMaxExecutionTimeExceeded RecordResolvingLocks UpdateResolvingLocks GetLockResolver ResolveLocksWithOpts LockWaitTime
+//@   loop 1 invariant l1: -1 <= rangeindex
+//@   at return assert granted: result0 && result1 == nil && defined(lockResp) ==> resp.Resp != nil && len(lockResp.Errors) == 0 && len(lockResp.Results) == 0
+//@   at return assert again: !result0 ==> result1 == nil
+
+// Force-lock mode: the key is reported locked (finished without error) by this function itself only when the store gave a
+// result for it that is not "failed", there was no region error and no lock is left to resolve.
+//@ func (actionPessimisticLock) handlePessimisticLockResponseForceLockMode
+//@   prop C06
+//@   may-panic
+//@   opaque-callee handleRegionError handleKeyErrorForResolve MergeReqDetails GetStoreAddr GetID run checkMaxExecutionTimeExceeded RecordResolvingLocks UpdateResolvingLocks GetLockResolver ResolveLocksWithOpts LockWaitTime
+//@   loop 1 invariant l1: -1 <= rangeindex
+//@   at return assert granted: result0 && result1 == nil && regionErr == nil && defined(locks) ==> len(lockResp.Results) == 1 && lockResp.Results[0].Type != kvrpcpb.PessimisticLockKeyResultType_LockResultFailed && len(locks) == 0
+//@   at return assert again: !result0 && regionErr == nil ==> result1 == nil
+
 // ---- C06: pessimistic rollback requests really reach the store -----------------------------------------------------------
 // Ghost bookkeeping of a committer's pessimistic rollbacks: rbTried - a rollback of some keys was started through
 // pessimisticRollbackMutations; rbDone - one of them returned without error. (The composition "group by region, run
